@@ -575,8 +575,47 @@ def _fold(ms, f):
     return acc
 
 
+def null_keys(tier, report):
+    """Grouping / binning by a feature that holds nulls or NaNs (scores of molecules that were not aligned, joined tables):
+    cutby, group_by and filter either reject the input loudly or return a partition / the exact selection - molecules
+    are never dropped silently (wave 10 seed C12j)."""
+    import polars as pl
+
+    n = 0
+    uids = (0, 1, 2, 3, 10, 11)
+    for kind in ("null", "nan", "null+nan", "all-null"):
+        for where in ((1,), (0, 5), (2, 3, 4)):
+            vals = [0.5 + i for i in range(len(uids))]
+            for j, w in enumerate(where if kind != "all-null" else range(len(uids))):
+                vals[w] = None if kind in ("null", "all-null") or (kind == "null+nan" and j % 2 == 0) else float("nan")
+            m = make(uids).with_features(pl.Series("score", vals, dtype=pl.Float64))
+            case = {"engine": "E1", "family": "null-keys", "kind": kind, "where": list(where)}
+            probes = {
+                "cutby(2 bins)": lambda: [g for _, g in m.cutby("score", [0.0, 3.0, 10.0])],
+                "cutby(3 bins)": lambda: [g for _, g in m.cutby("score", [0.0, 2.0, 4.0, 10.0])],
+                "group_by(score)": lambda: [g for _, g in m.group_by("score")],
+                "group_by(k, score)": lambda: [g for _, g in m.group_by(["k", "score"])],
+            }
+            for pname, fn in probes.items():
+                n += 1
+                try:
+                    groups = fn()
+                except Exception:
+                    continue  # rejected loudly: nothing was returned
+                got = sorted(u for g in groups for u in uids_of(g))
+                if got != sorted(uids):
+                    report.violations.append((f"{ID}|null-keys|{pname}|not-a-partition", f"score with {kind} at rows {list(where)}: groups hold uids {got}, input {list(uids)}", case))
+                for g in groups:
+                    bad = check_rows(g)
+                    if bad:
+                        report.violations.append((f"{ID}|null-keys|{pname}|rows", f"score with {kind}: {bad}", case))
+                        break
+    return n
+
+
 def extra(tier, seed, report):
     st = explore(tier, report)
+    report.cov["null_key_probes"] = null_keys(tier, report)
     nseq, ncall = same_object(tier, report)
     report.cov["featureless_combinations"] = featureless(tier, report)
     report.cov["same_object_sequences"] = nseq
